@@ -28,8 +28,15 @@ def main():
     ctx = core.Ctx(prop, tier, seed)
     mod = importlib.import_module("props." + prop.lower())
     from bridge import Model
-    if a.replay:
-        data = json.load(open(a.replay))
+    data = json.load(open(a.replay)) if a.replay else None
+    if data is not None and data.get("kind") == "correspondence-broken":
+        # a broken build / correspondence has no single input to replay: the whole check is re-run with the recorded
+        # seed and tier, and reports for itself whether the theorem or the correspondence still does not check
+        tier, seed = data.get("tier", tier), int(data.get("seed", seed))
+        ctx = core.Ctx(prop, tier, seed)
+        print("replay %s: re-running %s tier=%s seed=%d (%s)" % (a.replay, prop, tier, seed,
+              ", ".join(sorted({m.get("stream", "?") for m in data.get("mismatches", [])} | set(map(str, data.get("broken", [])))))))
+    elif a.replay:
         model = Model()
         try:
             bad = mod.replay(ctx, model, data)
